@@ -7,7 +7,7 @@ run_slot() {
   s=$1
   awk -v s=$s -v n=$SLOTS 'NR % n == s % n' /dev/shm/seeded_list.txt | while read d; do
     id=$(basename $d); prop=${id%%-*}
-    R=$(ISO_SIM=head /verif/tools/iso.sh seed$s ${d}patch.diff $TIER $prop 2>&1 | cut -c1-220 | tr '\n' ' ')
+    R=$(VERIF_THREADS=${VERIF_THREADS:-5} ISO_SIM=head /verif/tools/iso.sh seed$s ${d}patch.diff $TIER $prop 2>&1 | cut -c1-220 | tr '\n' ' ')
     echo "$id: $R"
   done
 }
